@@ -254,6 +254,18 @@ def run_property(pid, tier, base_seed, workers=16, budget_override=None,
         n = run_variant(key, base_seed, budget * share, max_runs, workers,
                         agg, known,
                         shrink_budget=(200 if tier == 'quick' else 300))
+    fidelity = None
+    if pid == 'C06' and tier == 'thorough' and not only:
+        from simphot.machines.deblend import real_pool_fidelity
+        try:
+            nfid, badfid = real_pool_fidelity(base_seed)
+            fidelity = {'scenes_compared_with_real_spawn_pool': nfid,
+                        'nproc_values': [2, 4], 'mismatches': badfid}
+        except Exception as e:  # noqa: BLE001
+            fidelity = {'error': repr(e)}
+            agg.harness.append((pid, {'verdict': 'HARNESS', 'seed': None,
+                                      'error': f'fidelity run: {e!r}'}))
+            agg.verdicts['HARNESS'] += 1
     wall = time.time() - t0
 
     # --- report ----------------------------------------------------------
@@ -284,6 +296,17 @@ def run_property(pid, tier, base_seed, workers=16, budget_override=None,
                 'error': 'minimised plan did not reproduce in a fresh '
                          'process (simulator nondeterminism)\n' + out}))
             agg.verdicts['HARNESS'] += 1
+    if fidelity and fidelity.get('mismatches'):
+        # the real pool disagrees with the serial path: a genuine violation
+        # of schedule independence observed on an uncontrolled schedule
+        os.makedirs(os.path.join(VERIF, 'replays'), exist_ok=True)
+        path = os.path.join(VERIF, 'replays', f'{pid}-fidelity.json')
+        with open(path, 'w') as fh:
+            json.dump(fidelity, fh, indent=1)
+        lines.append(f'VIOLATION property={pid} replay={path}')
+        lines.append('  real spawn pool result differs from the serial '
+                     'path: ' + fidelity['mismatches'][0][:300])
+        exit_code = 1
     if agg.harness and exit_code == 0:
         exit_code = 2
     for key, res in agg.harness[:5]:
@@ -329,6 +352,7 @@ def run_property(pid, tier, base_seed, workers=16, budget_override=None,
             'known_findings_matched': {k: len(v) for k, v in
                                        agg.known.items()},
             'workers': workers,
+            'fidelity_real_pool': fidelity,
         },
         'assumptions': ASSUMPTIONS.get(pid, []),
         'wall_s': round(wall, 2),
